@@ -94,7 +94,23 @@ def cauchy_value(xopt, g, H, sl, su, delta):
     sHs = s.dot(H).dot(s)
     gs = g.dot(s)
     t = tmax if sHs <= 0 else min(tmax, -gs / sHs)
+    _LAST_CAUCHY[0] = t * s
     return t * gs + 0.5 * t * t * sHs
+
+
+_LAST_CAUCHY = [None]
+
+
+def q_exact(g, H, d):
+    """g'd + d'Hd/2 in exact rational arithmetic (the float evaluation carries an error of order eps*||H||*||d||^2, which dwarfs
+    the quantities compared when the gradient is tiny and the step long: multi-seed protocol, seed 3, a false alarm of the float form)."""
+    from fractions import Fraction as Fr
+    fd = [Fr(float(v)) for v in d]
+    fg = [Fr(float(v)) for v in g]
+    n = len(fd)
+    q = sum(a * b for a, b in zip(fg, fd))
+    q += Fr(1, 2) * sum(fd[i] * Fr(float(H[i, j])) * fd[j] for i in range(n) for j in range(n))
+    return float(q)
 
 
 def run(case):
@@ -130,11 +146,19 @@ def run(case):
     if tol_q > 0:
         res.margin("C12.no_increase", max(q, 0.0) / tol_q)
     if not (q <= tol_q):
+        q = q_exact(g, H, d)         # verdict only from the exactly evaluated quadratic
+        res.count("rejudged-exactly")
+    if not (q <= tol_q):
         res.fail("C12.no_increase", "q(d)=%r tol=%r" % (q, tol_q))
     qc = cauchy_value(xopt, g, H, sl, su, delta)
     tol_c = 1e-10 * abs(qc) + ux * (normg + normH * delta)
     if tol_c > 0:
         res.margin("C12.cauchy", max(q - qc, 0.0) / tol_c)
+    if not (q <= qc + tol_c + 1e-300):
+        q = q_exact(g, H, d)
+        if _LAST_CAUCHY[0] is not None:
+            qc = q_exact(g, H, _LAST_CAUCHY[0])
+        res.count("rejudged-exactly")
     if not (q <= qc + tol_c + 1e-300):
         res.fail("C12.cauchy", "q(d)=%r > q(cauchy)=%r tol=%r" % (q, qc, tol_c))
     gref = g + H.dot(d)
